@@ -44,7 +44,26 @@ class _Bail(Exception):
     pass
 
 
+def _is_accessor(g: FuncInfo) -> bool:
+    """A public method without parameters whose whole body is ``return <expression over self>``."""
+    if g.kind != "method" or g.name.startswith("__") or g.decorators:
+        return False
+    a = g.node.args
+    if len(a.posonlyargs + a.args) != 1 or a.kwonlyargs or a.vararg or a.kwarg:
+        return False
+    body = list(g.node.body)
+    if body and isinstance(body[0], ast.Expr) and isinstance(body[0].value, ast.Constant) and isinstance(body[0].value.value, str):
+        body = body[1:]
+    if len(body) != 1 or not isinstance(body[0], ast.Return) or body[0].value is None:
+        return False
+    me = a.args[0].arg if a.args else a.posonlyargs[0].arg
+    names = {n.id for n in ast.walk(body[0].value) if isinstance(n, ast.Name)}
+    return names <= {me, "bool", "len", "int", "float"} and sum(1 for _ in ast.walk(body[0].value)) <= 12
+
+
 def default_policy(g: FuncInfo) -> bool:
+    if _is_accessor(g):
+        return True
     return g.name.startswith("_") and not (g.name.startswith("__") and g.name.endswith("__"))
 
 
